@@ -53,6 +53,8 @@ func (k *kbuf) conf(cs *pb.ConfState) {
 func (n *node) writeKey(k *kbuf, pass2 bool) {
 	k.u(n.id)
 	k.bo(n.alive)
+	// apply lag: the mode (kept across a crash) and, below, everything about a held Ready
+	k.bo(n.lag)
 	// persisted: HardState, snapshot metadata, entries
 	k.u(n.hs.Term)
 	k.u(n.hs.Vote)
@@ -123,6 +125,34 @@ func (n *node) writeKey(k *kbuf, pass2 bool) {
 		k.u(v.id)
 		k.bo(v.v)
 	}
+	// a held Ready: which committed page waits to be applied, what its Advance will mark as
+	// stable / applied, and what has accumulated inside the RawNode since (the entries and
+	// snapshot it has not handed out for persisting, the messages it has not handed out for
+	// sending). Nothing else distinguishes two RawNodes with equal Status and equal storage.
+	k.bo(n.held)
+	if n.held {
+		k.u(n.heldLo)
+		k.u(n.heldHi)
+		k.b = append(k.b, n.heldSum[:]...)
+		k.u(n.heldEntIdx)
+		k.u(n.heldEntTrm)
+		k.u(n.heldSnapIdx)
+		k.u(n.in.offset)
+		k.u(n.in.snapIdx)
+		k.u(n.in.snapTrm)
+		k.u(uint64(len(n.in.ents)))
+		for i := range n.in.ents {
+			e := &n.in.ents[i]
+			k.u(e.Index)
+			k.u(e.Term)
+			k.u(uint64(e.Type))
+			k.bs(e.Data)
+		}
+		k.u(uint64(len(n.in.msgs)))
+		for _, m := range n.in.msgs {
+			k.bs(m)
+		}
+	}
 	if pass2 {
 		el := n.elapsed
 		if st.RaftState != raft.StateLeader && el > n.cfg.ElectionTick {
@@ -187,7 +217,7 @@ func (c *cluster) key() (uint64, []byte) {
 	u := &c.used
 	k.b = append(k.b, c.iso)
 	body := len(k.b)
-	k.b = append(k.b, u.Proposals, u.Drops, u.Dups, u.Crashes, u.Heartbeats, u.Compacts, u.ConfChanges, u.Transfers, u.Expires, u.Delays)
+	k.b = append(k.b, u.Proposals, u.Drops, u.Dups, u.Crashes, u.Heartbeats, u.Compacts, u.ConfChanges, u.Transfers, u.Expires, u.Delays, u.Lags, u.Applies)
 	sum := sha1.Sum(k.b)
 	return binary.LittleEndian.Uint64(sum[:8]), k.b[:body]
 }
